@@ -16,13 +16,16 @@ RULE = ("the real qmail-send and qmail-clean mains (ASan+UBSan build of the work
         "recipients so that min(configured, announced) is exceeded by the ready recipients, reports withheld while the daemon still issues commands), %(n)s/16 'multi-pass' "
         "histories (3-9 recipients of a message on one channel, mixed K/Z/D/mangled outcomes over several passes, ALRM/HUP, reports withheld), %(n)s/40 fault sweeps "
         "(2-3 messages arriving one after the other so that job slots, delivery slots and message numbers are reused: the fault-free base run, then one run per system call of "
-        "qmail-send on a file below info/ local/ remote/ bounce/ todo/ - open, read, write, fsync, fstat, stat, unlink, utimes - with exactly that call failing; thorough: "
-        "every fourth base sweeps every system call) and %(n)s/50 clean-stop sweeps (1-2 messages with more recipients than delivery slots, queuelifetime {0,1,150,default}: "
+        "qmail-send on a file below info/ local/ remote/ bounce/ todo/ - open, read, write, fsync, fstat, stat, unlink, utimes - with exactly that call failing, and one run per unlink of "
+        "qmail-clean (intd/ todo/ mess/) failing with EIO so that qmail-clean answers '!'; thorough: every fourth base sweeps every system call) and %(n)s/50 clean-stop sweeps (1-2 messages with more recipients than delivery slots, queuelifetime {0,1,150,default}: "
         "base run, then one run per select point at/after which a command, report or arrival happened (and every 16th idle one) with TERM delivered there, the daemon exiting 0 "
         "once the in-flight attempts have reported, and a restart on the same queue). Every trace is abstracted to Daemon.Ev events and replayed through the monitor "
-        "Daemon.accept2 (= Daemon.accept plus the list of completion marks that are due, kept across clean restarts; first rejected event = disagreement); the oracles judge the concrete run: every accepted recipient is delivered (K read by the daemon), named in a queued "
-        "bounce, still queued, or documented-exempt (C03); no delivery starts for a record whose D byte was written, nor - across clean stops and restarts, absent a crash or a "
-        "failing call - for a record whose K/D report the daemon has read; no slot reuse; in-flight count within min(concurrency, spawner limit) (C04). "
+        "Daemon.accept2 (= Daemon.accept plus the list of completion marks that are due, kept across clean restarts; first rejected event = disagreement); the oracles judge the concrete run, keyed by record (message, channel, byte offset, generation): every accepted recipient is delivered (K read for that record), still T at its "
+        "offset, in todo/, named in bounce/<m> with info/<m>, named in a bounce of ITS message queued with the envelope of the accepted sender (a wrong envelope is a violation), or exempt because "
+        "its own paragraph was discarded with the bounce file of a #@[] message or was in bounce/<m> before a machine crash and not after; no bounce paragraph without a D report or a Z past the "
+        "queue lifetime; no completion mark without a K or the paragraph (C03); no delivery starts for a record whose D byte is on disk (re-read from the dump after every crash), nor - across "
+        "clean stops and restarts, absent a crash or a failing call of ITS markdone - for a record whose K/D report the daemon has read, nor while todo/<m> exists, nor while another attempt for "
+        "the same record is in flight; no slot reuse; in-flight count within min(concurrency, spawner limit); no exit 0 with deliveries in flight (C04). "
         "non-trivial = distinct scenario")
 
 
